@@ -59,8 +59,9 @@ TESTED_NOT_PROVED = ["WL colours and Morgan labels are external inputs of the mo
                      "'function of the graph given the ranking' are proved for every ranking; that the rankings themselves are a function "
                      "of the graph is only exercised by the oracle (no invariance is claimed for these back-ends)",
                      "SynRule: the decomposition of an ITS graph into (rc, left, right), explicit-hydrogen stripping and tuple-valued ITS "
-                     "orders are outside the model - the rule clause is proved for three fragment graphs with scalar orders and checked on "
-                     "real rules by the oracle only (45 rule cases)",
+                     "orders are outside the model - the rule clause is proved for three fragment graphs with scalar orders; "
+                     "SynRule.__eq__ itself is evaluated against the model on rules assembled from fragment graphs (constructor "
+                     "bypassed), real rules built from reaction SMILES are checked by the oracle only (45 rule cases)",
                      "whole-family soundness batches with more than 60 graphs (all 4-node classes) are oracle-only",
                      "hash() consistency of the wrappers (equal objects have equal hashes): oracle only"]
 
